@@ -53,6 +53,7 @@ func checkC12(c *Ctx) {
 			c.c07Batch(b)
 		}
 	}, func(o *coreObl) (string, bool) { return "R12.1", isLenObligation(o) })
+	c.c12MeasuredQuantity()
 	c.configOverwrites("R12.1")
 	c.configWriters("R12.1", "HeapInUseSoftLimit", "SysMemSoftLimit", "CountSoftLimit", "EvictFraction", "EvictionStrategy", "EvictionNeeded")
 }
@@ -807,6 +808,114 @@ func (c *Ctx) c12Wiring(b BK) {
 		r.Unknown("R12.3", ctor, "evictor selection not found")
 	} else if !bad {
 		r.OK("R12.3", ctor, "EvictMostExpired ⇒ evictMostExpired, otherwise evictLeastCounter")
+	}
+}
+
+// c12MeasuredQuantity: the documented meaning of the two memory limits is runtime.MemStats.HeapInuse and runtime.MemStats.Sys. In
+// the code reachable from the cleanup cycle every comparison that involves Config.HeapInUseSoftLimit (SysMemSoftLimit) has the
+// field HeapInuse (Sys) of a runtime.MemStats on its other side; a different measure (live objects, objects + free spans, another
+// metrics source) breaches or spares the limit in cycles where the documented quantity does not.
+func (c *Ctx) c12MeasuredQuantity() {
+	r := c.R
+	info := c.Pkg.TypesInfo
+	fd, _ := c.funcDecl("Trait.invokeCleanup")
+	if fd == nil {
+		r.Unknown("R12.1", "Trait.invokeCleanup:measured", "does not resolve")
+		return
+	}
+	want := map[string]string{"HeapInUseSoftLimit": "HeapInuse", "SysMemSoftLimit": "Sys"}
+	seen := map[string]int{}
+	bad := false
+	isMemStatsField := func(e ast.Expr, field string) bool {
+		for {
+			switch x := ast.Unparen(e).(type) {
+			case *ast.CallExpr: // conversions
+				if tv, ok := info.Types[x.Fun]; ok && tv.IsType() && len(x.Args) == 1 {
+					e = x.Args[0]
+					continue
+				}
+				return false
+			case *ast.SelectorExpr:
+				sl := info.Selections[x]
+				return sl != nil && sl.Kind() == types.FieldVal && x.Sel.Name == field && types.TypeString(derefType(sl.Recv()), nil) == "runtime.MemStats"
+			case *ast.Ident:
+				// a local holding the field: `inUse := m.HeapInuse`
+				if obj, ok := info.ObjectOf(x).(*types.Var); ok {
+					found := false
+					for _, bd := range c.reachBodies(fd, 3) {
+						ast.Inspect(bd.Body, func(n ast.Node) bool {
+							as, ok := n.(*ast.AssignStmt)
+							if !ok || len(as.Lhs) != len(as.Rhs) {
+								return true
+							}
+							for i, l := range as.Lhs {
+								if id, ok := l.(*ast.Ident); ok && info.ObjectOf(id) == obj {
+									if sel, ok := ast.Unparen(as.Rhs[i]).(*ast.SelectorExpr); ok {
+										if sl := info.Selections[sel]; sl != nil && sel.Sel.Name == field && types.TypeString(derefType(sl.Recv()), nil) == "runtime.MemStats" {
+											found = true
+										}
+									}
+								}
+							}
+							return true
+						})
+					}
+					return found
+				}
+				return false
+			default:
+				return false
+			}
+		}
+	}
+	mentions := func(e ast.Expr) string {
+		res := ""
+		ast.Inspect(e, func(n ast.Node) bool {
+			if sel, ok := n.(*ast.SelectorExpr); ok {
+				if sl := info.Selections[sel]; sl != nil && sl.Kind() == types.FieldVal {
+					if _, isLimit := want[selFieldName(sl)]; isLimit && fieldOwnerName(sl.Obj().(*types.Var)) == "Config" {
+						res = selFieldName(sl)
+					}
+				}
+			}
+			return true
+		})
+		return res
+	}
+	for _, bd := range c.reachBodies(fd, 3) {
+		ast.Inspect(bd.Body, func(n ast.Node) bool {
+			be, ok := n.(*ast.BinaryExpr)
+			if !ok {
+				return true
+			}
+			switch be.Op {
+			case token.GTR, token.LSS, token.GEQ, token.LEQ:
+			default:
+				return true
+			}
+			for _, pair := range [][2]ast.Expr{{be.X, be.Y}, {be.Y, be.X}} {
+				lim := mentions(pair[0])
+				if lim == "" {
+					continue
+				}
+				if lit, ok := ast.Unparen(pair[1]).(*ast.BasicLit); ok && lit.Value == "0" {
+					continue // "is the limit set at all"
+				}
+				seen[lim]++
+				if !isMemStatsField(pair[1], want[lim]) {
+					bad = true
+					r.Bad("R12.1", strings.TrimPrefix(c.fnNameOf(bd), "cache."), "limit-measured-otherwise:"+lim, c.Pos(be.Pos()), "Config."+lim+" is compared with something other than runtime.MemStats."+want[lim]+", the quantity the limit is documented for", nil)
+				}
+			}
+			return true
+		})
+	}
+	if seen["HeapInUseSoftLimit"] == 0 || seen["SysMemSoftLimit"] == 0 {
+		if !bad {
+			r.Unknown("R12.1", "Trait.invokeCleanup:measured", fmt.Sprintf("comparisons with the memory limits not found: %v", seen))
+		}
+	} else if !bad {
+		r.OK("R12.1", "Trait.invokeCleanup:measured", "HeapInUseSoftLimit is compared with MemStats.HeapInuse, SysMemSoftLimit with MemStats.Sys")
 	}
 }
 
